@@ -136,6 +136,12 @@ func (s *c13state) fetchRoster(c *pclient) {
 
 func (s *c13state) invariant(ctx string) {
 	s.collect()
+	// fetching the list is activity: if the administrator had been marked away, the fetch clears that *after* the
+	// reply was built and a change notice follows.  Fetch once to settle that, then fetch the list that is compared.
+	if _, err := s.admin.conn.UserList(); err != nil {
+		s.fail("%s: admin user list: %v", ctx, err)
+	}
+	s.collect()
 	us, err := s.admin.conn.UserList()
 	if err != nil {
 		s.fail("%s: admin user list: %v", ctx, err)
@@ -265,7 +271,7 @@ func c13prop(ev *evid.Rec, forceWrap bool) func(rt *rapid.T) {
 		}
 		var hist []string
 		nt, wrapped := false, false
-		inWorld(rt, hlsim.Options{Agreement: "a", Accounts: accounts}, func(rt *rapid.T, w *hlsim.World) {
+		inWorld(rt, hlsim.Options{Agreement: "a", Accounts: accounts, Keepalive: true}, func(rt *rapid.T, w *hlsim.World) {
 			s := &c13state{rt: rt, w: w}
 			adm := &pclient{idx: -1, login: "admin", access: hlref.AllAccess().Defined(), name: []byte("root")}
 			adm.conn = loginAs(rt, w, "10.13.0.250:1", "admin", "adminpw", "root")
@@ -565,6 +571,36 @@ func c13prop(ev *evid.Rec, forceWrap bool) func(rt *rapid.T) {
 						}
 					}
 				},
+				"idle": func(rt *rapid.T) {
+					// nobody but the administrator (who polls the user list) does anything for a while: the server marks
+					// users away after 300 s and tells everybody; any later request of an away user clears the flag again
+					s.rt = rt
+					d := rapid.SampledFrom([]time.Duration{50 * time.Second, 295 * time.Second, 311 * time.Second, 10 * time.Minute}).Draw(rt, "idle")
+					rec("idle %s", d)
+					settle(d)
+					s.invariant("while users are away")
+					// known finding C13/away-clear-reorder (decided by TestC13AwayReorder): the first request of an away user
+					// clears the flag with a change notice of its own; if that request also produces a change notice the two
+					// can overtake each other.  Excluded by construction: every user first wakes up with a request that
+					// notifies nobody, one user at a time.
+					for _, c := range s.live() {
+						if c != adm {
+							ev.Exclude("first request of an away user also being a notifying one (known finding away-clear-reorder)")
+							c.conn.Request(hlref.TranGetUserNameList)
+							settle(0)
+						}
+					}
+					nt = true
+				},
+				"keepAlive": func(rt *rapid.T) {
+					s.rt = rt
+					c := pick("who", func(c *pclient) bool { return c.connected && c.completed })
+					if c == nil {
+						rt.Skip()
+					}
+					rec("keepalive %d", c.idx)
+					c.conn.Request(hlref.TranKeepAlive) // does not count as activity
+				},
 				"fastForward": func(rt *rapid.T) {
 					s.rt = rt
 					n := rapid.SampledFrom([]int{1, 100, 30000, 65000, 65530, 65536, 70000}).Draw(rt, "n")
@@ -633,3 +669,48 @@ type nopConn struct{}
 func (nopConn) Read([]byte) (int, error)    { return 0, fmt.Errorf("closed") }
 func (nopConn) Write(p []byte) (int, error) { return len(p), nil }
 func (nopConn) Close() error                { return nil }
+
+// TestC13AwayReorder decides the one class the state machine excludes: a user that was
+// marked away changes its name; the other client must end with the server's entry.
+func TestC13AwayReorder(t *testing.T) {
+	ev := evid.New("C13", "TestC13AwayReorder")
+	defer ev.Flush()
+	rapid.Check(t, func(rt *rapid.T) {
+		name := genBytes(rt, "name", rapid.IntRange(1, 12).Draw(rt, "len"))
+		inWorld(rt, hlsim.Options{Agreement: "a", Keepalive: true, Accounts: []hlsim.AccountSpec{acct("admin", "Admin", "adminpw", hlref.AllAccess().Defined())}}, func(rt *rapid.T, w *hlsim.World) {
+			a := &pclient{idx: 0}
+			a.conn = loginAs(rt, w, "10.13.9.1:1", "admin", "adminpw", "watcher")
+			b := loginAs(rt, w, "10.13.9.2:1", "admin", "adminpw", "sleeper")
+			us, err := a.conn.UserList()
+			if err != nil {
+				rt.Fatalf("harness: %v", err)
+			}
+			a.roster = map[int]rosterEntry{}
+			for _, u := range us {
+				a.roster[u.ID] = rosterEntry{name: string(u.Name), icon: u.Icon, flags: u.Flags}
+			}
+			settle(311 * time.Second) // both are marked away; the watcher wakes up first, quietly
+			a.conn.Request(hlref.TranKeepAlive)
+			a.conn.Request(hlref.TranGetUserNameList)
+			settle(0)
+			a.fold(a.conn.TakeInbox())
+			b.Request(hlref.TranSetClientUserInfo, fld(hlref.FUserName, name), fld(hlref.FUserIconID, hlref.BE16(9)))
+			settle(0)
+			a.fold(a.conn.TakeInbox())
+			us, err = a.conn.UserList()
+			if err != nil {
+				rt.Fatalf("harness: %v", err)
+			}
+			a.fold(a.conn.TakeInbox())
+			for _, u := range us {
+				if e := a.roster[u.ID]; e.name != string(u.Name) || e.flags != u.Flags || e.icon != u.Icon {
+					if ev.IsKnown("away-clear-reorder") {
+						return
+					}
+					rt.Fatalf("after an away user changed its name the watcher's folded entry for id %d is %+v, the server lists name=%q icon=%d flags=%d", u.ID, e, u.Name, u.Icon, u.Flags)
+				}
+			}
+		})
+		ev.Case(evid.Hash("away", name), true, "away-then-rename")
+	})
+}
